@@ -45,6 +45,7 @@ type Obligation struct {
 	Replace   map[string]string `json:"replace"`
 	SchedChoice bool            `json:"sched_choice"`
 	CloseYield  bool            `json:"close_yield"`
+	TickerTicks int             `json:"ticker_ticks"`
 	MapOrderChoice bool         `json:"map_order_choice"`
 	ReplayAttempts int          `json:"replay_attempts"`
 	ConcreteMem    bool         `json:"concrete_mem"`
@@ -627,7 +628,7 @@ func matchFinding(fs []Finding, prop, obl string, v interp.Violation) *Finding {
 
 func (r *runner) config(o *Obligation, tc *TierCfg, params map[string]int) *interp.Config {
 	cfg := &interp.Config{InitAllow: map[string]bool{}, Replace: o.Replace, TargetPrefix: modPath, MaxSteps: tc.MaxSteps, MaxPaths: tc.MaxPaths,
-		Workers: *workers, SchedChoice: o.SchedChoice, CloseYield: o.CloseYield, MapOrderChoice: o.MapOrderChoice, HashIDs: o.HashIDs, ConcreteMem: o.ConcreteMem, RaceMode: o.RaceMode, AllocBudget: o.AllocBudget, AllocCap: o.AllocCap, StepsArePanic: o.StepsArePanic, Params: params,
+		Workers: *workers, SchedChoice: o.SchedChoice, CloseYield: o.CloseYield, TickerTicks: o.TickerTicks, MapOrderChoice: o.MapOrderChoice, HashIDs: o.HashIDs, ConcreteMem: o.ConcreteMem, RaceMode: o.RaceMode, AllocBudget: o.AllocBudget, AllocCap: o.AllocCap, StepsArePanic: o.StepsArePanic, Params: params,
 		TimeoutMs: tc.QueryMs, MaxConcretize: tc.MaxConcretize}
 	for _, a := range interp.DefaultInitAllow {
 		cfg.InitAllow[a] = true
